@@ -516,6 +516,7 @@ func History(t *rapid.T, o HistOpt) *hist.History {
 					if u.Items[j].Kind == hist.IRows {
 						small := true
 						for _, r := range u.Items[j].Rows {
+							small = small && len(r.Rows) <= 8 // not on top of a rows event that is itself large
 							for _, row := range r.Rows {
 								for _, v := range append(append([]hist.Value{}, row.Before...), row.After...) {
 									small = small && v.B.Len() < 200 && v.J == nil
@@ -585,6 +586,7 @@ func History(t *rapid.T, o HistOpt) *hist.History {
 					small = false
 				}
 				for _, r := range it.Rows {
+					small = small && len(r.Rows) <= 8 // the scale shapes do not multiply each other
 					for _, row := range r.Rows {
 						for _, v := range append(append([]hist.Value{}, row.Before...), row.After...) {
 							small = small && v.B.Len() < 300 && v.J == nil
